@@ -125,6 +125,11 @@ def main():
         full = [j for j in jobs if j["steps"] == list(range(1, len(j["profile"]) + 1))]
         part = [j for j in jobs if j["steps"] != list(range(1, len(j["profile"]) + 1))]
         jobs = rnd.sample(full, min(len(full), 160)) + rnd.sample(part, min(len(part), 140))
+    else:
+        # thorough: every complete ascending run (as before) and a large sample of the subsets / reorderings
+        full = [j for j in jobs if j["steps"] == list(range(1, len(j["profile"]) + 1))]
+        part = [j for j in jobs if j["steps"] != list(range(1, len(j["profile"]) + 1))]
+        jobs = full + rnd.sample(part, min(len(part), 6000))
     cases = core.pmap(run_case, jobs, chunksize=4)
     # transient series (run_timeseries(transient=True)): hydraulics of every step = stand-alone, a step depends on the past only
     from . import transient as TR
